@@ -30,6 +30,11 @@ class weekday(object):
           self.n,
         ))
 
+    def __reduce__(self):
+        # __slots__ without __getstate__ cannot be pickled with protocols 0
+        # and 1, which took tzrange, tzstr and relativedelta objects with it
+        return (self.__class__, (self.weekday, self.n))
+
     def __ne__(self, other):
         return not (self == other)
 
